@@ -146,6 +146,14 @@ func corpus() []corpusCase {
 				"corpus=same-workload-in-two-queues("+first+" queue created first) ", nil)
 		}
 	}
+	// the queue tree of seeded/C05-2's README (reclaimer and over-quota queue at different depths of
+	// the tree), both depth orders, two levels of difference, and the same-depth controls
+	mixed := func(reclaimerExtra, victimExtra int, sigs bool) func() (string, string, map[string]int) {
+		return func() (string, string, map[string]int) {
+			return ProgCase(readmeTree(reclaimerExtra, victimExtra), Config{Sigs: sigs, NodeOrder: "binpack"},
+				fmt.Sprintf("corpus=mixed-depth-tree(reclaimer %d, over-quota queue %d inner queues below org) ", reclaimerExtra, victimExtra), nil)
+		}
+	}
 	oneDept := map[string]string{"qa": "d1", "qb": "d1"}
 	twoDepts := map[string]string{"qa": "d1", "qb": "d2"}
 	ap := []string{"allocate", "preempt"}
@@ -165,6 +173,13 @@ func corpus() []corpusCase {
 		{"xq-blocked-first-on-2depts", xq("blocked", twoDepts, true, ap)},
 		{"xq-victim-first-on-2depts", xq("victim", twoDepts, true, ap)},
 		{"xq-blocked-first-on-full-cycle", xq("blocked", nil, true, full)},
+		{"mixed-reclaimer-deeper", mixed(1, 0, true)},
+		{"mixed-victim-deeper", mixed(0, 1, true)},
+		{"mixed-same-depth-3", mixed(1, 1, true)},
+		{"mixed-same-depth-2", mixed(0, 0, false)},
+		{"mixed-reclaimer-deeper-2", mixed(2, 0, false)},
+		{"mixed-victim-deeper-2", mixed(0, 2, false)},
+		{"mixed-reclaimer-4-victim-3", mixed(2, 1, true)},
 		{"empty", alloc(empty, Config{NodeOrder: "binpack"}, false, "corpus=empty ")},
 		{"limited", alloc(limited, Config{NodeOrder: "binpack"}, false, "corpus=limit ")},
 		{"limited-spread", alloc(limited, Config{NodeOrder: "spread", Sigs: true}, false, "corpus=limit ")},
@@ -190,6 +205,11 @@ func runItem(root *u.Rng, it item) result {
 		switch {
 		case it.i%2 == 0:
 			ps = genReclaim(r, sigs)
+			// three of four reclaim clusters: a queue tree of mixed depth (own fork: the cluster itself is
+			// the one the flat hierarchy would get)
+			if tr := r.Fork(99); tr.Chance(3, 4) {
+				addReclaimTree(tr, &ps)
+			}
 		case it.i%4 == 1:
 			ps = genPreempt(r, sigs)
 		default:
@@ -308,6 +328,6 @@ func Run(dir string, seed uint64, n int, tier string) error {
 		}
 		out.Sample(r.Label)
 	}
-	out.Stats["rule"] = "fixed corpus (replayed refutation witnesses under the configuration that shows them and under the default one, boundary clusters), then three streams from one splitmix64 seed: alloc = cycle.Gen clusters without gpu-memory pods (every third one tight: identical whole-GPU / CPU pods, all pending) with only the allocate action, node order binpack / spread (emulated, dominating) / fixed random permutation, scheduling signatures on/off; prog = interchangeable-class clusters (identical nodes, 1-GPU single-pod jobs, saturated) for reclaim (pending queue within quota, other queues over quota, optionally a protected third queue) and preempt (one queue, mixed priorities; every second preempt cluster: two or three leaf queues under one / separate / mixed departments, one pod shape = one scheduling signature in all queues, per queue a role victim = runs a strictly lower-priority preemptible pod / blocked = none, or non-preemptible pending jobs over a zero quota / mixed / idle, queue priorities, creation order, quotas and usage random so that either kind of queue is served first; the pop order of the pending jobs is read off the real JobsOrderByQueues right before the action), consolidation action in between on/off, signatures on (pending jobs of one priority class per queue) / off (mixed); sig = random UpdateRepresentative / IsEasierToSchedule sequences on real pod groups with chain-ordered requests. Non-trivial = at least one Cache call or one refused attempt; distinct by label."
+	out.Stats["rule"] = "fixed corpus (replayed refutation witnesses under the configuration that shows them and under the default one, boundary clusters, the mixed-depth queue tree org > dept1 > team1 / org > over-quota-queue in both depth orders, with one and two levels of difference, and the same-depth controls), then three streams from one splitmix64 seed: alloc = cycle.Gen clusters without gpu-memory pods (every third one tight: identical whole-GPU / CPU pods, all pending) with only the allocate action, node order binpack / spread (emulated, dominating) / fixed random permutation, scheduling signatures on/off; prog = interchangeable-class clusters (identical nodes, 1-GPU single-pod jobs, saturated) for reclaim (pending queue within quota, other queues over quota, optionally a protected third queue; three of four reclaim clusters with the leaf queues in a queue tree of MIXED depth re-opened with an arbitrary parent map: one or two top-level queues, each leaf directly under a top-level queue or one or two inner queues deeper, 3-4 levels in all; tree shape same-depth / reclaimer-deeper / victim-deeper one third each (depth of the pending jobs' leaf against the depth of the victims' leaf), the third leaf on a chain of its own or below an inner queue of either chain; quotas at every level: in every second tree each inner queue deserves exactly the sum of the leaf quotas below it, in the others that sum 3/5, one more 1/10, one less 1/10, unlimited 1/5; top-level queues unlimited 2/3 or the sum; the remaining quarter flat under the one department) and preempt (one queue, mixed priorities; every second preempt cluster: two or three leaf queues under one / separate / mixed departments, one pod shape = one scheduling signature in all queues, per queue a role victim = runs a strictly lower-priority preemptible pod / blocked = none, or non-preemptible pending jobs over a zero quota / mixed / idle, queue priorities, creation order, quotas and usage random so that either kind of queue is served first; the pop order of the pending jobs is read off the real JobsOrderByQueues right before the action), consolidation action in between on/off, signatures on (pending jobs of one priority class per queue) / off (mixed); sig = random UpdateRepresentative / IsEasierToSchedule sequences on real pod groups with chain-ordered requests. Non-trivial = at least one Cache call or one refused attempt; distinct by label."
 	return out.Flush()
 }
